@@ -350,10 +350,13 @@ class PartialJoin(UnaryOperation):
         from ._projection import Projection
 
         if self.binary.max_columns == self.binary.min_columns:
-            # Columns the new target shares with the fixed relation beyond the
-            # equality constraint would be replaced by the fixed relation's
-            # (or vice versa) before the operations in between get to see them.
-            clobbered = (current.target.columns & self.fixed.columns) - self.binary.common_columns
+            # Columns the new target (or the operation in between) shares with
+            # the fixed relation beyond the equality constraint would be
+            # replaced by the fixed relation's (or vice versa) before the
+            # operations in between get to see them.
+            clobbered = (
+                (current.target.columns | current.columns) & self.fixed.columns
+            ) - self.binary.common_columns
             if clobbered:
                 return UnaryCommutator(
                     first=None,
